@@ -155,9 +155,13 @@ def prop(p):
     if len(p[1]) == 1 and p[1][0][0] == 'lit': return '~' + prop(p[1][0])
     return '~(%s)' % body_str(p[1])
   if t == 'or': return '(%s)' % ' | '.join(body_str(b) for b in p[1])
-  if t == 'imp': return '(%s => %s)' % (body_str(p[1]), body_str(p[2]))
+  if t == 'imp': return '(%s => %s)' % (paren_body(p[1]), paren_body(p[2]))
   if t == 'aggeq': return '%s %s= (%s :- %s)' % (p[1], AGG_SUGAR.get(p[2], p[2]), ex(p[3]), body_str(p[4]))
   raise ValueError(p)
+
+
+def paren_body(body):
+  return body_str(body) if len(body) == 1 else '(%s)' % body_str(body)
 
 
 def body_str(body):
